@@ -47,7 +47,14 @@ MODEL_SCOPE = ('modelled: SpectralInformation.add_ase/add_nli/apply_attenuation_
                'snr_lin/snr_nli/gsnr and dB views, select_channels/demuxed/muxed_spectral_information and __add__ (power '
                'bookkeeping; rejections are C07), op lists of Fused/Roadm/Fiber/RamanFiber/Edfa.propagate and '
                'Multiband_amplifier.__call__, Transceiver._calc_snr/update_snr, utils.snr_sum. Inputs of the model taken from '
-               'the implementation at run time: the NLI, ASE, gain and loss vectors (pinned by C03, C04, C05, C06)')
+               'the implementation at run time: the NLI, ASE, gain and loss vectors (pinned by C03, C04, C05, C06). Generated inputs stay within the property\'s '
+               'stated scope (per-channel power <= +10 dBm at every fibre / amplifier input; see the partial_statements entry)')
+PARTIAL = ['scope of the generated inputs (the property scopes itself to launch powers up to +10 dBm): in the "shuffle" stream (elements '
+           'of a path in random order) a non-passive element is skipped when a channel entering it exceeds +10 dBm (piled-up '
+           'amplifiers); "raman_ggn" cases (ggn_spectrally_separated with a sparse computed_channels list, thorough tier) launch '
+           'combs with a +-3 dB power spread only, because that method interpolates the NLI density of non-computed channels in '
+           'frequency and would give a -30 dBm channel next to a +3 dBm one more NLI than it has power; ggn_approx cases use '
+           'per-block offsets of at most 3 dB for the same reason']
 TRUSTED = ['the op list of an element call is observed by wrapping the six mutating methods in the harness process; a '
            'mutation of the shares that bypasses these methods is seen only through the state comparison after the call']
 
@@ -269,7 +276,9 @@ def monitor_op_events(res, events):
         where = f'{kind} in {uid}' if uid else kind
         scale = np.maximum(np.abs(p0), np.abs(p1))
         if kind in ('attLin', 'attDb', 'gainLin', 'gainDb'):
-            if not (np.array_equal(s0, s1) and np.array_equal(a0, a1) and np.array_equal(n0, n1)):
+            # C01 only says that no power is created or lost: the three powers scale alike within TOL (that the shares are
+            # literally untouched is C02's statement and the correspondence with the model)
+            if any(np.any(~(np.abs(x1 - x0) <= TOL)) for x0, x1 in ((s0, s1), (a0, a1), (n0, n1))):
                 res.fail(f'bookkeeping-scale: {where} changed a share (attenuation/gain must scale signal, ASE and NLI alike)')
             f = {'attLin': arg, 'gainLin': arg, 'attDb': 10 ** (-arg / 10), 'gainDb': 10 ** (arg / 10)}[kind]
             if np.any(~(np.abs(p1 - p0 * f) <= TOL * scale)):
@@ -285,7 +294,7 @@ def monitor_op_events(res, events):
                     res.fail(f'bookkeeping-ase: {where} channel {i}: {nm} power {got[i]!r} W, expected {exp[i]!r} W '
                              f'(adding {arg[i]!r} W of ASE)')
         elif kind == 'addNli':
-            if not np.array_equal(p0, p1):
+            if np.any(~(np.abs(p1 - p0) <= TOL * scale)):
                 res.fail(f'bookkeeping-nli: {where} changed the total channel power (NLI is a transfer inside the channel)')
             dn = (n1 - n0) * p0
             ds = (s0 - s1) * p0
@@ -509,7 +518,7 @@ def run_path(case, drv):
     for kind, (p0, s0, a0, n0), arg, _, uid in rec.op_events:
         if kind == 'addNli' and np.any(~(arg < p0)):
             res.stats['nli_not_below_pch'] += 1
-        if kind in ('addNli', 'addAse') and np.any(arg < 0):
+        if kind in ('addNli', 'addAse') and np.any(arg < -TOL * p0):      # a rounding residue is not a violation
             res.fail(f'negative-noise: {kind} in {uid} was given a negative power')
     check_update_calls(res, drv, rec.update_snr_calls)
     # Transceiver figures
